@@ -55,6 +55,7 @@ KINDS = {1: "EvStart", 2: "EvEnd", 3: "EvWrite", 4: "EvRead", 5: "EvRelease"}
 CODES = {10: "Wait did not return (no EvRelease)", 11: "the released plan is not Completed/Failed",
          12: "an object is left Running with no listed explanation", 13: "the released plan violates the consistency rules of C04",
          14: "the deferred group of an entered scope never completed a run", 15: "final status differs from the uninterrupted run's",
+         17: "a Completed block of the released plan holds a Failed check group (a failed check was treated as passed)",
          16: "the crash image (left by a crashed recovery) shows a plan that had started as NotStarted: no process will ever resume it"}
 OBJK = {1: "plan", 2: "check group", 3: "block", 4: "sequence", 5: "check action", 6: "sequence action"}
 
